@@ -727,6 +727,13 @@ def run_case(ctx):
     if cls == "bind":
         names = rng.sample(["theta_0", "theta_1", "theta_10", "phi", "lambda_", "x", "beta"], rng.randint(1, 4))
         symbols = {nm: sympy.Symbol(nm) for nm in names}
+        if ctx.index % 3 == 0:
+            # a TWIN: a second symbol that prints like the first one and is another symbol (declared real) - circuits and
+            # maps use both; a map entry for the one binds the one
+            twin = names[0] + "#real"
+            names = names + [twin]
+            symbols[twin] = sympy.Symbol(names[0], real=True)
+            ctx.mon.note("bind-case:symbols-that-print-alike")
         n = rng.randint(1, 6)
         specs, maps, mdesc = [], [], []
         for i in range(n):
